@@ -193,6 +193,7 @@ func (w *relocationWorker) relocate(ctx *ReceiveContext, peerState *internalpb.P
 	departedNode := address.FormatHostPort(peerState.GetHost(), int(peerState.GetRemotingPort()))
 	rctx := context.WithoutCancel(ctx.Context())
 	start := time.Now()
+	verifhook.At("reloc.worker.run", peersAddress, 0, 0)
 
 	if system.isStopping() {
 		system.endRelocation(peersAddress)
@@ -278,6 +279,7 @@ func (w *relocationWorker) relocate(ctx *ReceiveContext, peerState *internalpb.P
 	_ = eg.Wait()
 
 	failed := failures.items()
+	verifhook.At("reloc.worker.done", peersAddress, int64(len(failed)), 0)
 
 	// relocated = every relocatable item minus the ones that failed. Lazy
 	// grains that self-heal are counted as relocated (they were handled and are
